@@ -55,6 +55,7 @@ type RunCtx struct {
 	St   *simrt.Stream
 	Sc   *Scenario
 	Tier string
+	Index int // run index within the batch sequence (used to enumerate configuration tables)
 
 	viol   []Violation
 	cross  []Violation
@@ -193,6 +194,7 @@ func drawPolicy(st *simrt.Stream) (simrt.Policy, bool) {
 
 type RunOpts struct {
 	Tier     string
+	Index    int
 	LogLimit int
 	Keep     bool // keep choices and trace even without a violation
 }
@@ -201,7 +203,7 @@ type RunOpts struct {
 func RunOne(sc *Scenario, st *simrt.Stream, o RunOpts) *RunResult {
 	resetGlobals()
 	pol, shuffle := drawPolicy(st)
-	rc := &RunCtx{St: st, Sc: sc, Tier: o.Tier}
+	rc := &RunCtx{St: st, Sc: sc, Tier: o.Tier, Index: o.Index}
 	hz := sc.Horizon
 	if hz == 0 {
 		hz = 2 * time.Hour
